@@ -96,6 +96,13 @@ Definition unregister (s : state) (o : nat) : state :=
   | None => s                                       (* fileno() = -1: ValueError, swallowed *)
   end.
 
+(* [del m[k] for k, v in m.items() if v == o] *)
+Definition drop_obj (m : nat -> option nat) (o : nat) : nat -> option nat :=
+  fun j => match m j with
+           | Some o' => if Nat.eqb o' o then None else Some o'
+           | None => None
+           end.
+
 Definition update_reg (k : kind) (s : state) (o : nat) : option state :=
   let s1 := unregister s o in
   let mi := mem o (rd s1) in
@@ -109,7 +116,8 @@ Definition update_reg (k : kind) (s : state) (o : nat) : option state :=
     let s2 := b_discard s1 o in
     match k, fds s2 o with
     | KPoll, Some f => Some (set_pmap s2 (upd (pmap s2) f None))
-    | _, _ => Some s2                               (* EPoll keeps _map[fileno]; Poll: KeyError on -1 swallowed *)
+    | KPoll, None => Some s2                        (* Poll: KeyError on _map[-1] swallowed *)
+    | _, _ => Some (set_pmap s2 (drop_obj (pmap s2) o))   (* EPoll: every _map key whose value is fd is deleted *)
     end.
 
 Definition api (k : kind) (s : state) (o : nat) : option state :=
